@@ -233,7 +233,7 @@ input_merge_heap!(c14_in_merge_witness_script_onesided, c14_in_merge_witness_scr
 //@ harness: c14_in_merge_final_script_sig_identical class=B tier=thorough bound="script of exactly 2 symbolic bytes"
 //@ clause: Input::merge: identical final_script_sig in both operands merges to that value
 input_merge_heap!(c14_in_merge_final_script_sig_onesided, c14_in_merge_final_script_sig_identical, final_script_sig, script2());
-//@ harness: c14_in_merge_final_script_witness_onesided class=B tier=quick bound="witness stack of one 1-byte element"
+//@ harness: c14_in_merge_final_script_witness_onesided class=B tier=thorough bound="witness stack of one 1-byte element" timeout=3000
 //@ clause: Input::merge: final_script_witness present in exactly one operand is present in the result whichever operand is merged into which; no other field disturbed
 //@ harness: c14_in_merge_final_script_witness_identical class=B tier=thorough bound="witness stack of one 1-byte element"
 //@ clause: Input::merge: identical final_script_witness in both operands merges to that value
@@ -300,9 +300,13 @@ input_merge_heap!(c14_in_merge_blind_value_proof_onesided, c14_in_merge_blind_va
 // `loop { match node.force() { Leaf => return, Internal => descend } }`, which CBMC unwinds forever without a bound
 // (measured); with the bound, the unwinding assertion proves that the depth is 0.
 macro_rules! input_merge_map1 {
-    ($name:ident, $field:ident, $mkk:expr, $mkv:expr $(, $stub:meta)*) => {
+    ($name:ident, $field:ident, $mkk:expr, $mkv:expr $(, $stub:meta)*) => { input_merge_map1u!($name, 3, $field, $mkk, $mkv $(, $stub)*); };
+}
+// explicit unwind bound: maps keyed by 20/32-byte hashes or by keys compare them with memcmp (a 32-iteration loop for CBMC)
+macro_rules! input_merge_map1u {
+    ($name:ident, $unw:literal, $field:ident, $mkk:expr, $mkv:expr $(, $stub:meta)*) => {
         #[kani::proof]
-        #[kani::unwind(3)]
+        #[kani::unwind($unw)]
         $(#[$stub])*
         fn $name() {
             let k = $mkk; let v = $mkv;
@@ -347,30 +351,30 @@ input_merge_map1!(c14_in_merge_unknown_onesided, unknown, raw_key1(), val1());
 //@ harness: c14_in_merge_proprietary_onesided class=B tier=quick bound="one entry in one operand, the other operand's map empty; 1-byte prefix, symbolic subtype, 1-byte key; 1-byte value"
 //@ clause: Input::merge: a proprietary pair present in exactly one operand is present (alone) in the result whichever operand is merged into which
 input_merge_map1!(c14_in_merge_proprietary_onesided, proprietary, prop_key1(), val1());
-//@ harness: c14_in_merge_partial_sigs_onesided class=B tier=quick bound="one entry in one operand, the other operand's map empty; symbolic public key (libsecp comparison through the assumed model); 1-byte signature"
+//@ harness: c14_in_merge_partial_sigs_onesided class=B tier=thorough bound="one entry in one operand, the other operand's map empty; symbolic public key (libsecp comparison through the assumed model); 1-byte signature" timeout=3000
 //@ clause: Input::merge: a partial signature present in exactly one operand is present (alone) in the result whichever operand is merged into which
-input_merge_map1!(c14_in_merge_partial_sigs_onesided, partial_sigs, any_btc_pubkey(), val1(), kani::stub(zffi::secp256k1_ec_pubkey_cmp, model_ec_pubkey_cmp));
+input_merge_map1u!(c14_in_merge_partial_sigs_onesided, 34, partial_sigs, any_btc_pubkey(), val1(), kani::stub(zffi::secp256k1_ec_pubkey_cmp, model_ec_pubkey_cmp));
 //@ harness: c14_in_merge_bip32_derivation_onesided class=B tier=thorough bound="one entry in one operand, the other operand's map empty; symbolic public key; key source with a 1-element path"
 //@ clause: Input::merge: a BIP-32 key derivation present in exactly one operand is present (alone) in the result whichever operand is merged into which
-input_merge_map1!(c14_in_merge_bip32_derivation_onesided, bip32_derivation, any_btc_pubkey(), key_source1(), kani::stub(zffi::secp256k1_ec_pubkey_cmp, model_ec_pubkey_cmp));
+input_merge_map1u!(c14_in_merge_bip32_derivation_onesided, 34, bip32_derivation, any_btc_pubkey(), key_source1(), kani::stub(zffi::secp256k1_ec_pubkey_cmp, model_ec_pubkey_cmp));
 //@ harness: c14_in_merge_ripemd160_preimages_onesided class=B tier=thorough bound="one entry in one operand, the other operand's map empty; symbolic 20-byte hash key (merge does not check the hash/preimage relation); 1-byte preimage"
 //@ clause: Input::merge: a RIPEMD160 preimage present in exactly one operand is present (alone) in the result whichever operand is merged into which
-input_merge_map1!(c14_in_merge_ripemd160_preimages_onesided, ripemd160_preimages, ripemd160::Hash::from_byte_array(kani::any()), val1());
-//@ harness: c14_in_merge_sha256_preimages_onesided class=B tier=quick bound="one entry in one operand, the other operand's map empty; symbolic 32-byte hash key; 1-byte preimage"
+input_merge_map1u!(c14_in_merge_ripemd160_preimages_onesided, 34, ripemd160_preimages, ripemd160::Hash::from_byte_array(kani::any()), val1());
+//@ harness: c14_in_merge_sha256_preimages_onesided class=B tier=thorough bound="one entry in one operand, the other operand's map empty; symbolic 32-byte hash key; 1-byte preimage" timeout=3000
 //@ clause: Input::merge: a SHA256 preimage present in exactly one operand is present (alone) in the result whichever operand is merged into which
-input_merge_map1!(c14_in_merge_sha256_preimages_onesided, sha256_preimages, sha256::Hash::from_byte_array(kani::any()), val1());
+input_merge_map1u!(c14_in_merge_sha256_preimages_onesided, 34, sha256_preimages, sha256::Hash::from_byte_array(kani::any()), val1());
 //@ harness: c14_in_merge_hash160_preimages_onesided class=B tier=thorough bound="one entry in one operand, the other operand's map empty; symbolic 20-byte hash key; 1-byte preimage"
 //@ clause: Input::merge: a HASH160 preimage present in exactly one operand is present (alone) in the result whichever operand is merged into which
-input_merge_map1!(c14_in_merge_hash160_preimages_onesided, hash160_preimages, hash160::Hash::from_byte_array(kani::any()), val1());
+input_merge_map1u!(c14_in_merge_hash160_preimages_onesided, 34, hash160_preimages, hash160::Hash::from_byte_array(kani::any()), val1());
 //@ harness: c14_in_merge_hash256_preimages_onesided class=B tier=thorough bound="one entry in one operand, the other operand's map empty; symbolic 32-byte hash key; 1-byte preimage"
 //@ clause: Input::merge: a HASH256 preimage present in exactly one operand is present (alone) in the result whichever operand is merged into which
-input_merge_map1!(c14_in_merge_hash256_preimages_onesided, hash256_preimages, sha256d::Hash::from_byte_array(kani::any()), val1());
-//@ harness: c14_in_merge_tap_script_sigs_onesided class=B tier=quick bound="one entry in one operand, the other operand's map empty; symbolic x-only key (comparison through the assumed model) and leaf hash; symbolic signature"
+input_merge_map1u!(c14_in_merge_hash256_preimages_onesided, 34, hash256_preimages, sha256d::Hash::from_byte_array(kani::any()), val1());
+//@ harness: c14_in_merge_tap_script_sigs_onesided class=B tier=thorough bound="one entry in one operand, the other operand's map empty; symbolic x-only key (comparison through the assumed model) and leaf hash; symbolic signature" timeout=3000
 //@ clause: Input::merge: a taproot script-spend signature present in exactly one operand is present (alone) in the result whichever operand is merged into which
-input_merge_map1!(c14_in_merge_tap_script_sigs_onesided, tap_script_sigs, (any_xonly(), TapLeafHash::from_byte_array(kani::any())), any_schnorr_sig(), kani::stub(zffi::secp256k1_xonly_pubkey_cmp, model_xonly_pubkey_cmp));
+input_merge_map1u!(c14_in_merge_tap_script_sigs_onesided, 34, tap_script_sigs, (any_xonly(), TapLeafHash::from_byte_array(kani::any())), any_schnorr_sig(), kani::stub(zffi::secp256k1_xonly_pubkey_cmp, model_xonly_pubkey_cmp));
 //@ harness: c14_in_merge_tap_key_origins_onesided class=B tier=thorough bound="one entry in one operand, the other operand's map empty; symbolic x-only key; one leaf hash, key source with a 1-element path"
 //@ clause: Input::merge: a taproot key origin present in exactly one operand is present (alone) in the result whichever operand is merged into which
-input_merge_map1!(c14_in_merge_tap_key_origins_onesided, tap_key_origins, any_xonly(), (vec![TapLeafHash::from_byte_array(kani::any())], key_source1()), kani::stub(zffi::secp256k1_xonly_pubkey_cmp, model_xonly_pubkey_cmp));
+input_merge_map1u!(c14_in_merge_tap_key_origins_onesided, 34, tap_key_origins, any_xonly(), (vec![TapLeafHash::from_byte_array(kani::any())], key_source1()), kani::stub(zffi::secp256k1_xonly_pubkey_cmp, model_xonly_pubkey_cmp));
 // not covered: tap_scripts (ControlBlock keys: merkle branch + x-only key; not attempted)
 
 // ---- interaction of the two UTXO fields (candidate disagreement found while reading Input::merge) ----
